@@ -10,7 +10,6 @@ import (
 	"fmt"
 	"math"
 	"math/rand/v2"
-	"strings"
 
 	v1 "github.com/crossplane/crossplane/apis/apiextensions/v1"
 	xcomposite "github.com/crossplane/crossplane/internal/controller/apiextensions/composite"
@@ -92,6 +91,51 @@ func describe(v any) string {
 	return s
 }
 
+// judgeStep compares one real transform application with the reference's verdict.
+func judgeStep(t v1.Transform, in any, ref rres, out any, err error) (key, what string) {
+	s := site(t)
+	switch ref.k {
+	case rErr:
+		if err == nil {
+			return "law:" + s + lawDetail(t, in) + "-expected-error", "documentation implies an error (" + ref.why + "), got " + describe(out)
+		}
+	case rOK:
+		if err != nil {
+			return "law:" + s + lawDetail(t, in) + "-unexpected-error", "documented result " + describe(ref.val) + ", got error: " + err.Error()
+		}
+		if !sameJSON(ref.val, out) {
+			return "law:" + s + lawDetail(t, in) + "-wrong-value", "documented result " + describe(ref.val) + " for input " + describe(in) + ", got " + describe(out)
+		}
+		if t.Type == v1.TransformTypeConvert && t.Convert != nil {
+			if want := goTypeWanted(*t.Convert); want != "" && ioTypeOf(out) != want {
+				return "law:" + s + lawDetail(t, in) + "-wrong-type", "convert to " + want + " returned a " + ioTypeOf(out)
+			}
+		}
+	}
+	return "", ""
+}
+
+// attribute replays a chain step by step and names the first transform that deviates from the
+// reference, so that a defect of one transform has one key wherever it is observed.
+func attribute(chain []v1.Transform, start any) (key, what string) {
+	cur := start
+	for _, t := range chain {
+		var out any
+		var err error
+		if perr := kit.Try(func() { out, err = xcomposite.Resolve(t, cur) }); perr != nil {
+			return panicKey(perr), firstLines(perr.Error(), 1)
+		}
+		if k, w := judgeStep(t, cur, refTransform(t, cur), out, err); k != "" {
+			return k, w
+		}
+		if err != nil {
+			return "", ""
+		}
+		cur = out
+	}
+	return "", ""
+}
+
 func runLawCase(c *kit.Ctx, name string, r *rand.Rand, st stats) {
 	var start any
 	var chain []v1.Transform
@@ -149,26 +193,13 @@ func runLawCase(c *kit.Ctx, name string, r *rand.Rand, st stats) {
 		switch ref.k {
 		case rErr:
 			st.inc("law_checked_error")
-			if err == nil {
-				c.Violate("law:"+s+lawDetail(t, cur)+"-expected-error", name, "documentation implies an error ("+ref.why+"), got "+describe(out),
-					witness(i, map[string]any{"transform": t, "got": describe(out)}))
-			}
 		case rOK:
 			st.inc("law_checked_value")
-			if err != nil {
-				c.Violate("law:"+s+lawDetail(t, cur)+"-unexpected-error", name, "documented result "+describe(ref.val)+", got error: "+err.Error(),
-					witness(i, map[string]any{"transform": t, "want": describe(ref.val), "error": err.Error()}))
-			} else if !sameJSON(ref.val, out) {
-				c.Violate("law:"+s+lawDetail(t, cur)+"-wrong-value", name, "documented result "+describe(ref.val)+", got "+describe(out),
-					witness(i, map[string]any{"transform": t, "want": describe(ref.val), "got": describe(out)}))
-			} else if t.Type == v1.TransformTypeConvert && t.Convert != nil {
-				if want := goTypeWanted(*t.Convert); want != "" && ioTypeOf(out) != want {
-					c.Violate("law:"+s+lawDetail(t, cur)+"-wrong-type", name, "convert to "+want+" returned a "+ioTypeOf(out),
-						witness(i, map[string]any{"transform": t, "got": describe(out)}))
-				}
-			}
 		default:
 			st.inc("law_unspecified")
+		}
+		if key, what := judgeStep(t, cur, ref, out, err); key != "" {
+			c.Violate(key, name, what, witness(i, map[string]any{"transform": t, "want": describe(ref.val), "got": describe(out), "error": errStr(err)}))
 		}
 		if err != nil {
 			break
@@ -185,7 +216,7 @@ func runLawCase(c *kit.Ctx, name string, r *rand.Rand, st stats) {
 			c.Violate("law:roundtrip-"+rt+"-wrong-value", name, "round trip "+rt+" of "+describe(start)+" gave "+describe(cur),
 				map[string]any{"start": describe(start), "chain": chain, "got": describe(cur)})
 		}
-		if steps == len(chain) && ioTypeOf(start) != ioTypeOf(cur) && !strings.Contains(describe(cur), "error") {
+		if steps == len(chain) && ioTypeOf(start) != ioTypeOf(cur) {
 			c.Violate("law:roundtrip-"+rt+"-wrong-type", name, "round trip "+rt+" changed the type to "+ioTypeOf(cur),
 				map[string]any{"start": describe(start), "chain": chain, "got": describe(cur)})
 		}
